@@ -41,7 +41,8 @@ Inductive value :=
 | VTuple (vs : list value)               (* Tuple: ObjectRepr::Seq, is_tuple *)
 | VIter (sh : lazy_shape) (vs : list value) (* ObjectRepr::Iterable *)
 | VMap (kvs : list (value * value))      (* ValueMap, pairs in iteration order *)
-| VPlain (s : list Z).                   (* ObjectRepr::Plain object, [s] = its rendering *)
+| VPlain (s : list Z)                    (* ObjectRepr::Plain object, [s] = its rendering *)
+| VInvalid (detail : list Z).            (* ValueRepr::Invalid: an error of kind InvalidOperation carried as a value *)
 
 (* ------------------------------------------------------------------------------------ *)
 (* generic list helpers                                                                 *)
@@ -210,6 +211,7 @@ Definition kind_rank (v : value) : Z :=
   | VMap _ => 7
   | VIter _ _ => 8
   | VPlain _ => 9
+  | VInvalid _ => 10
   end.
 
 Definition is_tuple (v : value) : bool := match v with VTuple _ => true | _ => false end.
@@ -280,7 +282,7 @@ Definition scalar_cmp (a b : value) : comparison :=
       | None =>
           match number_of a, number_of b with
           | Some x, Some y => cmp_uncoercible x y
-          | _, _ => Eq   (* not reachable for two scalars of one kind (as_object().unwrap()) *)
+          | _, _ => Eq   (* two invalid values: `return kind_ordering` (Equal) *)
           end
       end
   end.
@@ -464,6 +466,7 @@ Fixpoint vhash (v : value) : list Z :=
               end) kvs
   | VPlain _ => [0]
   | VInt _ _ | VFloat _ => num_hash v
+  | VInvalid d => le64 3 ++ le64 1 ++ flat_map utf8 d ++ [255]     (* (e.kind(), e.detail()).hash *)
   end.
 
 Definition hash_eq (a b : value) : bool := zlist_eqb (vhash a) (vhash b).
@@ -848,7 +851,7 @@ Definition is_true (v : value) : bool :=
   | VFloat b => negb (f_eq b 0)
   | VStr _ s => match s with [] => false | _ => true end
   | VBytes s => match s with [] => false | _ => true end
-  | VNone | VUndef => false
+  | VNone | VUndef | VInvalid _ => false
   | VSeq xs | VTuple xs | VIter _ xs => match xs with [] => false | _ => true end
   | VMap kvs => match kvs with [] => false | _ => true end
   | VPlain _ => true
